@@ -139,3 +139,58 @@ impl FungibleBurnable for TokVotes {
 
 #[contractimpl(contracttrait)]
 impl Votes for TokVotes {}
+
+// ---------------- a deliberately lax token ----------------
+// Not from the library: a minimal SEP-41-shaped ledger that performs NO sign or expiration checks of
+// its own, so that a forwarder's own validation is what stands between a caller and a negative fee.
+use soroban_sdk::contracttype;
+
+#[contracttype]
+pub enum LaxKey {
+    Bal(Address),
+    Allow(Address, Address),
+}
+
+#[contract]
+pub struct LaxToken;
+
+#[contractimpl]
+impl LaxToken {
+    pub fn mint(e: &Env, to: Address, amount: i128) {
+        let b: i128 = e.storage().persistent().get(&LaxKey::Bal(to.clone())).unwrap_or(0);
+        e.storage().persistent().set(&LaxKey::Bal(to), &(b + amount));
+    }
+    pub fn balance(e: &Env, id: Address) -> i128 {
+        e.storage().persistent().get(&LaxKey::Bal(id)).unwrap_or(0)
+    }
+    pub fn allowance(e: &Env, from: Address, spender: Address) -> i128 {
+        e.storage().persistent().get(&LaxKey::Allow(from, spender)).unwrap_or(0)
+    }
+    pub fn approve(e: &Env, from: Address, spender: Address, amount: i128, _expiration_ledger: u32) {
+        from.require_auth();
+        e.storage().persistent().set(&LaxKey::Allow(from, spender), &amount);
+    }
+    pub fn transfer(e: &Env, from: Address, to: Address, amount: i128) {
+        from.require_auth();
+        Self::mv(e, from, to, amount);
+    }
+    pub fn transfer_from(e: &Env, spender: Address, from: Address, to: Address, amount: i128) {
+        spender.require_auth();
+        let k = LaxKey::Allow(from.clone(), spender);
+        let a: i128 = e.storage().persistent().get(&k).unwrap_or(0);
+        if a < amount {
+            panic!("allowance");
+        }
+        e.storage().persistent().set(&k, &(a - amount));
+        Self::mv(e, from, to, amount);
+    }
+    fn mv(e: &Env, from: Address, to: Address, amount: i128) {
+        let fb: i128 = e.storage().persistent().get(&LaxKey::Bal(from.clone())).unwrap_or(0);
+        if amount > 0 && fb < amount {
+            panic!("balance");
+        }
+        e.storage().persistent().set(&LaxKey::Bal(from), &(fb - amount));
+        let tb: i128 = e.storage().persistent().get(&LaxKey::Bal(to.clone())).unwrap_or(0);
+        e.storage().persistent().set(&LaxKey::Bal(to), &(tb + amount));
+    }
+}
